@@ -387,6 +387,9 @@ def bits_to_target(bits):
     coefficient = little_endian_to_int(bits[:-1])
     # the formula is:
     # coefficient * 256**(exponent-3)
+    if exponent < 3:
+        # stay in integers: the low bytes of the coefficient are dropped
+        return coefficient >> (8 * (3 - exponent))
     return coefficient * 256 ** (exponent - 3)
 
 
@@ -395,6 +398,9 @@ def target_to_bits(target):
     raw_bytes = target.to_bytes(32, "big")
     # get rid of leading 0's
     raw_bytes = raw_bytes.lstrip(b"\x00")
+    if len(raw_bytes) == 0:
+        # a target of zero is encoded as zero
+        return b"\x00\x00\x00\x00"
     if raw_bytes[0] > 0x7F:
         # if the first bit is 1, we have to start with 00
         exponent = len(raw_bytes) + 1
@@ -405,6 +411,8 @@ def target_to_bits(target):
         exponent = len(raw_bytes)
         # coefficient is the first 3 digits of the base-256 number
         coefficient = raw_bytes[:3]
+    # targets of less than 3 base-256 digits still have a 3 byte coefficient
+    coefficient = coefficient + b"\x00" * (3 - len(coefficient))
     # we've truncated the number after the first 3 digits of base-256
     new_bits = coefficient[::-1] + bytes([exponent])
     return new_bits
